@@ -1,7 +1,7 @@
 """C16: layout utilities agree with the codec: usage map, dummy signals, frame length, compress.
 Second tie (translator): gen/Tie_frame.v proves the regenerated Frame.fit_dlc equal to Layout.fit_dlc for all sizes.
 Tie: Frame.get_frame_layout / create_dummy_signals / calc_dlc / fit_dlc / compress, CanMatrix.recalc_dlc / set_fd_type vs
-model/Layout.v (cmd 1601-1606) on the same cases (usage map as lists of signal indices per bit, all signals after
+model/Layout.v (cmd 1601-1608) on the same cases (usage map as lists of signal indices per bit, all signals after
 create_dummy_signals, sizes, start bits after compress), incl. placements that leave the frame (Python slice clamping).
 Search oracle: a direct transcription of the property (bit positions via layouts.positions/bigpos, counting, arithmetic) and,
 for the usage map, the decoder itself (flip one payload bit, see which decoded raw values change)."""
@@ -80,8 +80,10 @@ def run(chk):
                 "width 1..8 (seeded split and order), both byte orders, 3-byte subsets sampled, plus random layouts up to 64 bytes; length: every "
                 "declared length 0..64 x signal sets of 1..64 bytes (disjoint, overlapping, multiplexed groups sharing bits, equal start bits with "
                 "different widths in both list orders, nested, mixed byte orders whose start numbers are ordered unlike their ends, shuffled) x "
-                "calc_dlc/recalc max/force/other, each followed by set_fd_type and fit_dlc; fit_dlc and set_fd_type alone on -2..80 and "
-                "large sizes. non-trivial = at least one gap before a signal / a cell with >= 1 signal / a length that changes or is kept by the "
+                "calc_dlc/recalc max/force/other, each followed by set_fd_type and fit_dlc; matrices of 1..6 such frames (as drawn / descending / ascending need) x the three "
+                "strategies, each frame compared with the oracle and with the same frame alone in a fresh matrix, then set_fd_type and a second call; "
+                "one frame object edited in place (compress, dummies, length calls, added/moved signals) compared with a fresh frame after every step; "
+                "fit_dlc and set_fd_type alone on -2..80 and large sizes. non-trivial = at least one gap before a signal / a cell with >= 1 signal / a length that changes or is kept by the "
                 "max rule; distinct by (frame length, signals, operation)")
     ok = chk.build_and_audit()
     if ok and hasattr(core, "translator_tie"):
@@ -456,6 +458,165 @@ def run(chk):
             Ls = rng.choice([1, 1, 2, 2, 3, 4, 8, 8, 12, 16, 24, 32, 48, 64, rng.randrange(1, 65)])
             kind, sigs = length_shape(Ls)
             check_lengths(declared, kind, sigs)
+    # ------------------------------------------------------------------ matrix level: several frames in one matrix
+    # CanMatrix.recalc_dlc / set_fd_type walk over all frames: every frame must get what it would get alone (independent oracle and a
+    # fresh single-frame matrix of the same definition), whatever stands before or after it, and a second call must change nothing.
+    def need_of(sigs):
+        used = [n for st, sz, le in sigs for n in layouts.positions(le, st, sz)]
+        return max(used) // 8 + 1 if used else 0
+
+    def check_matrix(frames, strategy):
+        """frames: list of (declared, is_fd, signals)"""
+        db = C.CanMatrix()
+        objs = []
+        for k, (declared, fd, sigs) in enumerate(frames):
+            fr, _ = mk(declared, sigs)
+            fr.name = "f%d" % k
+            fr.arbitration_id = C.ArbitrationId(k + 1, False)
+            fr.is_fd = fd
+            db.add_frame(fr)
+            objs.append(fr)
+        db.recalc_dlc(strategy)
+        got = [fr.size for fr in objs]
+        needs = [need_of(s) for _, _, s in frames]
+        want = [max(d, n) if strategy == "max" else (n if strategy == "force" else d) for (d, _, _), n in zip(frames, needs)]
+        alone = []
+        for declared, fd, sigs in frames:
+            fr1, _ = mk(declared, sigs)
+            db1 = C.CanMatrix()
+            db1.add_frame(fr1)
+            db1.recalc_dlc(strategy)
+            alone.append(fr1.size)
+        later_needs_less = any(needs[j] < max(needs[:j]) for j in range(1, len(needs)))
+        inp = dict(op="matrix recalc_dlc(%s)" % strategy,
+                   frames=[dict(declared=d, signals=[dict(start=st, size=sz, little_endian=le) for st, sz, le in s]) for d, _, s in frames])
+        chk.case(("matrix", strategy, tuple((d, tuple(s)) for d, _, s in frames)), len(frames) >= 2 and later_needs_less)
+        chk.count("matrix-recalc-" + strategy)
+        chk.count("matrix-frames=%d" % min(len(frames), 6))
+        if later_needs_less:
+            chk.count("matrix-later-frame-needs-less-than-an-earlier-one")
+        if got != alone:
+            chk.violation("matrix-frame-depends-on-neighbours", "recalc_dlc on a matrix gives a frame another length than the same frame alone "
+                          "in a fresh matrix", inp, alone, got)
+        if got != want:
+            chk.violation("matrix-recalc-not-per-frame-minimum", "recalc_dlc on a matrix: a frame's length is not the smallest byte count "
+                          "containing its own signals (never below its declared length unless forced)", inp, want, got)
+        mode = {"max": 0, "force": 1}.get(strategy, 2)
+        flat = []
+        for d, _, s in frames:
+            flat.append([d, len(s)])
+            flat += groups(s)
+        add(1607, [[mode]] + flat, [got], inp)
+        # a second call is a no-op
+        db.recalc_dlc(strategy)
+        if [fr.size for fr in objs] != got:
+            chk.violation("matrix-recalc-not-idempotent", "a second recalc_dlc with the same strategy changes lengths again", inp, got,
+                          [fr.size for fr in objs])
+        # set_fd_type over the same matrix
+        before_fd = [bool(fr.is_fd) for fr in objs]
+        db.set_fd_type()
+        got_fd = [bool(fr.is_fd) for fr in objs]
+        want_fd = [b or sz > 8 for b, sz in zip(before_fd, got)]
+        chk.count("matrix-set_fd_type")
+        if got_fd != want_fd or [fr.size for fr in objs] != got:
+            chk.violation("matrix-set-fd-type", "set_fd_type on a matrix: exactly the frames longer than 8 bytes become FD, the others keep their type",
+                          dict(inp, sizes=got, is_fd_before=before_fd), want_fd, got_fd)
+        add(1608, [[x for sz, b in zip(got, before_fd) for x in (sz, int(b))]], [[int(b) for b in got_fd]],
+            dict(op="matrix set_fd_type", sizes=got, is_fd_before=before_fd))
+
+    for _ in range(250 if not thorough else 3000):
+        nfr = rng.choice([1, 2, 2, 3, 3, 4, 6])
+        frames = []
+        for _k in range(nfr):
+            Ls = rng.choice([1, 1, 2, 3, 4, 8, 8, 9, 12, 16, 32, 64])
+            kind, sigs = length_shape(Ls)
+            frames.append((rng.choice([0, 1, 2, 8, 8, rng.randrange(0, 65)]), rng.random() < 0.2, sigs))
+        order = rng.choice(["as-drawn", "descending", "ascending"])
+        if order != "as-drawn":
+            frames.sort(key=lambda f: need_of(f[2]), reverse=(order == "descending"))
+        chk.count("matrix-order-" + order)
+        for strategy in ("max", "force", "keep"):
+            check_matrix(frames, strategy)
+    chk.sample(dict(op="matrix recalc_dlc(force)", frames=[dict(declared=8, signals=[(0, 48, "intel")]), dict(declared=8, signals=[(0, 12, "intel")])],
+                    sizes_after=[6, 2]))
+
+    # ------------------------------------------------------------------ one frame object used again after in-place edits
+    # After every step the observable results (usage map, length utilities) of the edited object must equal those of a fresh frame
+    # built from its current definition.
+    def snapshot(fr):
+        return fr.size, [(s.start_bit, s.size, s.is_little_endian) for s in fr.signals]
+
+    def observe(fr):
+        lay = fr.get_frame_layout()
+        pos = {id(s): i for i, s in enumerate(fr.signals)}
+        cells = [[pos[id(s)] for s in cell] for cell in lay]
+        size0 = fr.size
+        fr.calc_dlc()
+        c = fr.size
+        fr.size = size0
+        db = C.CanMatrix()
+        db.add_frame(fr)
+        db.recalc_dlc("force")
+        f = fr.size
+        fr.size = size0
+        return cells, c, f
+
+    for _ in range(150 if not thorough else 2000):
+        L = rng.choice([1, 2, 2, 3, 4, 8])
+        single = rng.random() < 0.6
+        lay = layouts.gen_layout(rng, L, max_signals=rng.choice([1, 2, 4]), max_width=16, le_prob=(rng.choice([0.0, 1.0]) if single else 0.5))
+        sigs = [(d["start"], d["size"], d["le"]) for d in lay]
+        fr, _ = mk(L, sigs)
+        steps = []
+        for _s in range(rng.randrange(2, 6)):
+            op = rng.choice(["layout", "compress", "dummies", "calc_dlc", "force", "fit_dlc", "grow", "add-signal", "move-signal"])
+            steps.append(op)
+            if op == "layout":
+                fr.get_frame_layout()
+            elif op == "compress":
+                if hangs[0] >= 3:
+                    continue
+                try:
+                    guarded(fr.compress, 5)
+                except Hang:
+                    hangs[0] += 1
+                    chk.violation("compress-hangs", "compress did not terminate within 5 s", dict(length=L, signals=sigs, steps=steps))
+                    break
+            elif op == "dummies":
+                if len(fr.signals) < 40:
+                    fr.create_dummy_signals()
+            elif op == "calc_dlc":
+                fr.calc_dlc()
+            elif op == "force":
+                db = C.CanMatrix()
+                db.add_frame(fr)
+                db.recalc_dlc("force")
+            elif op == "fit_dlc":
+                fr.fit_dlc()
+            elif op == "grow":
+                fr.size = fr.size + rng.randrange(1, 3)
+            elif op == "add-signal":
+                nb = 8 * max(fr.size, 1)
+                w = rng.randrange(1, min(nb, 12) + 1)
+                fr.add_signal(C.Signal("x%d" % len(fr.signals), start_bit=rng.randrange(0, nb - w + 1), size=w,
+                                       is_little_endian=rng.random() < 0.5, is_signed=False))
+            elif op == "move-signal" and fr.signals:
+                s = rng.choice(fr.signals)
+                nb = 8 * max(fr.size, 1)
+                if s.size <= nb:
+                    s.start_bit = rng.randrange(0, nb - s.size + 1)
+            size_now, sig_now = snapshot(fr)
+            fresh, _ = mk(size_now, sig_now)
+            a = observe(fr)
+            b = observe(fresh)
+            chk.case(("reuse", L, tuple(sigs), tuple(steps)), len(steps) >= 2)
+            chk.count("reuse-step-" + op)
+            if a != b or snapshot(fr) != (size_now, sig_now):
+                chk.violation("reuse-differs-from-fresh", "a frame edited in place answers differently from a fresh frame of the same definition",
+                              dict(length=L, signals=sigs, steps=list(steps), definition_now=dict(size=size_now, signals=sig_now)),
+                              dict(calc_dlc=b[1], force=b[2], usage=b[0][:16]), dict(calc_dlc=a[1], force=a[2], usage=a[0][:16]))
+                break
+
     sizes = list(range(-2, 81)) + [100, 255, 256, 1000, 4095]
     for size in sizes:
         fr = C.Frame("f", size=size)
@@ -495,7 +656,7 @@ def run(chk):
             chk.tie_break("layout-utilities", inf, core.parse_out(o)[:40], exp[:40])
     if len(out) != len(lines):
         chk.tie_break("layout-utilities", "model answered %d of %d cases" % (len(out), len(lines)), None, None)
-    chk.ties["correspondence"] = {"suite": "layout-utilities (cmd 1601-1606)", "cases": len(lines), "per_operation": per, "disagreements": bad}
+    chk.ties["correspondence"] = {"suite": "layout-utilities (cmd 1601-1608)", "cases": len(lines), "per_operation": per, "disagreements": bad}
     small = [i for i in range(len(lines)) if len(lines[i]) < 400]
     idx = rng.sample(small, min(300, len(small)))
     shard = []
